@@ -10,7 +10,7 @@
 From Coq Require Import List NArith.
 From Coq Require Import Permutation.
 From Jamm Require Import Bytes Codec Tree Spec Cursor SearchFacts CursorFacts SeekFacts CodecFacts.
-From Jamm Require Engine EngineAbs SpecPath EngineFacts EngineMergeFacts EngineModifyFacts EnginePathFacts EngineSpillFacts SpecPathFacts EngineRebalanceFacts EngineBridgeFacts EnginePins EngineTxInvFacts EngineSpillBucketFacts.
+From Jamm Require Engine EngineAbs SpecPath EngineFacts EngineMergeFacts EngineModifyFacts EnginePathFacts EngineSpillFacts SpecPathFacts EngineRebalanceFacts EngineBridgeFacts EnginePins EngineTxInvFacts EngineSpillBucketFacts EngineRefines.
 From Jamm Require Consts CLayout.
 From Coq Require String.
 Import Coq.Strings.String.StringSyntax. Delimit Scope string_scope with string.
@@ -242,3 +242,38 @@ Theorem C01_partial_commit_meaning : forall (st : Engine.db) (b : Engine.bucket)
     (EngineSpillBucketFacts.cpres 16 (Engine.d_disk st') (Engine.d_root st') -> EngineAbs.abs_db st' = m).
 Proof. exact EngineSpillBucketFacts.commit_meaning. Qed.
 Print Assumptions C01_partial_commit_meaning.
+
+(* ==== THE TIER-B THEOREM (engine model, one transaction): from a committed state satisfying the strict tree invariant and the
+   allocation invariant (db_ok), a transaction that the engine completes yields a state whose meaning is the functional
+   semantics of its operations -- for every operation list within the model's fuels (op_ok), every spill order, every tree
+   shape -- provided the NEW state's trees fit the reading fuel (readable: height <= 64, nesting <= 16; decidable, and
+   evaluated on every state the model-side search visits). The functional semantics is the handle-based reference machine
+   (C01_reference_machine_is_sem_tx). What ties the engine MODEL to the library is the page-for-page correspondence. ==== *)
+Theorem C01_engine_transaction_refines_reference : forall (st : Engine.db) (ops : list Engine.op) (ord : list Bytes.bytes) (st' : Engine.db),
+  EngineRefines.db_ok st -> Forall (EnginePathFacts.op_ok (Engine.d_disk st)) ops ->
+  Engine.run_tx st ops ord = Engine.Ok st' -> EngineRefines.readable st' ->
+  EngineAbs.abs_db st' = EngineAbs.sem_tx ops (EngineAbs.abs_db st).
+Proof. exact EngineRefines.run_tx_meaning. Qed.
+Print Assumptions C01_engine_transaction_refines_reference.
+
+(* the strict tree invariant is re-established by every transaction ... *)
+Theorem C01_engine_strict_invariant_kept : forall (st : Engine.db) (ops : list Engine.op) (ord : list Bytes.bytes) (st' : Engine.db),
+  EngineRefines.db_ok st -> Forall (EnginePathFacts.op_ok (Engine.d_disk st)) ops ->
+  Engine.run_tx st ops ord = Engine.Ok st' -> EngineRefines.readable st' -> EngineTxInvFacts.db_strict st'.
+Proof. exact EngineRefines.run_tx_strict. Qed.
+Print Assumptions C01_engine_strict_invariant_kept.
+
+(* ... the allocation invariant (free and pending ids disjoint from every reachable page run and from the free-list run) is
+   NOT yet proved to be re-established (C01_partial): it enters as the decidable hypothesis `checked st'` (EngineRefines.checkedb,
+   evaluated on every state of the model-side search), and with it any history of transactions from the empty database refines
+   the reference *)
+Theorem C01_partial_engine_history_refines : forall (P : N) (txs : list (list Engine.op * list Bytes.bytes)) (st' : Engine.db),
+  (0 < P)%N -> EngineRefines.txs_ok (Engine.init_db P) txs ->
+  EngineRefines.run_txs (Engine.init_db P) txs = Engine.Ok st' ->
+  EngineRefines.db_ok st' /\ EngineAbs.abs_db st' = EngineRefines.sem_txs txs (Spec.SBucket 0 0 nil).
+Proof. exact EngineRefines.run_txs_refines_init. Qed.
+Print Assumptions C01_partial_engine_history_refines.
+
+Theorem C01_partial_target_statement_holds : EngineAbs.run_tx_refines_stmt EngineRefines.db_wf EnginePathFacts.op_ok.
+Proof. exact EngineRefines.run_tx_refines_stmt_holds. Qed.
+Print Assumptions C01_partial_target_statement_holds.
